@@ -516,8 +516,7 @@ package lnwallet
 //@
 //@ func genRemoteHtlcSigJobs
 //@   props C01
-//@   requires chanState != nil && keyRing != nil && remoteCommitView != nil
-//@   requires 0 <= remoteCommitView.feePerKw && remoteCommitView.feePerKw <= 1<<40
+//@   site call HtlcIsDust: domain 0 <= arg(3) && arg(3) <= 1<<40
 //@   loop * havoc
 //@   site call HtlcIsDust nth 0: assert arg(0) == old(chanState.ChanType) && arg(1) && arg(2) == lntypes.Remote && arg(3) == old(remoteCommitView.feePerKw) &&
 //@        arg(4) == fdiv(htlc.Amount, 1000) && arg(5) == old(chanState.RemoteChanCfg.DustLimit)
